@@ -590,3 +590,49 @@ def run_parallel(prog, rep):
     if n < 4:
         raise AnalysisBroken('R-PARALLEL: only %d multi-container calls found' % n)
     return rule
+
+
+ORDER_CHANGING = ('erase', 'remove', 'remove_if', 'unique', 'sort', 'stable_sort', 'reverse', 'rotate', 'insert', 'emplace', 'swap', 'partition', 'stable_partition', 'shuffle', 'pop_front')
+
+
+def run_aligned(prog, rep, floor=6):
+    """per-dimension containers (entry i belongs to dimension i) are only ever extended at the end: removing, inserting or
+    reordering entries shifts every later entry to another dimension"""
+    rule = rep.rule('R-ALIGNED', 'per-dimension containers in the data access functions (positions, extents, units: entry i belongs to dimension i) are never shortened in the middle, reordered or inserted into; they only grow at the end', floor=floor)
+    n = 0
+    for f in sorted(prog.funcs.values(), key=lambda f: (f.file, f.line)):
+        if f.body is None or not f.q.startswith('nix::util::') or not (f.file or '').endswith('dataAccess.cpp'):
+            continue
+        # locals / parameters of vector type that are read at a loop index in a call to nix:: code
+        per_dim = {}
+        for c in f.calls():
+            if not (c.callee.get('q') or '').startswith('nix::') or c.get('op'):
+                continue
+            for a in real_args(c):
+                if a is None:
+                    continue
+                for x in a.walk():
+                    if (x.k == 'call' and x.get('op') == '[]') or x.k == 'subscript':
+                        b = unwrap(x.c[0])
+                        if b is not None and b.k == 'ref' and b.decl.get('kind') in ('local', 'param') and 'vector' in (b.decl.get('type') or b.t or ''):
+                            per_dim[b.decl.get('lid')] = b.decl.get('name')
+        if not per_dim:
+            continue
+        for lid, name in sorted(per_dim.items(), key=lambda kv: kv[1]):
+            n += 1
+            bad = []
+            for c in f.calls():
+                nm = c.callee.get('name')
+                if nm not in ORDER_CHANGING:
+                    continue
+                touches = [x for x in c.walk() if x.k == 'ref' and x.decl.get('lid') == lid]
+                if touches:
+                    bad.append((nm, c))
+            key = '%s%s|%s' % (f.q, _sigkey(f), name)
+            if bad:
+                rule.bad(key, rep.where(bad[0][1]), f.label(), '%s is changed by %s (%s): entries behind the changed place no longer belong to the dimension they are used for' % (name, bad[0][0], bad[0][1].src(60)))
+            else:
+                rule.ok(key, rep.where(f), f.label(), '%s only grows at the end' % name)
+    if n < floor:
+        raise AnalysisBroken('R-ALIGNED: only %d per-dimension containers found' % n)
+    return rule
